@@ -235,13 +235,13 @@ Section Loader.
     else Stop (add_err E_invalid_tool s).
 
   (* the scalar elements of a sequence; other elements are diagnosed with [code] and skipped
-     (values.push_back: the loop-carried list is kept most recent first and reversed at the end) *)
+     (values.push_back: the loop-carried list is kept most recent first and reversed at the end; rev_append is the linear-time reversal) *)
   Definition collect_scalars (code : N) (xs : list ynode) (s : bstate) : res (list bytes) :=
     bind (each (fun x s acc => with_type x (fun t => match t with
                                                      | KScalar => Go s (scalar_of x :: acc)
                                                      | _ => Go (add_err code s) acc
                                                      end)) xs s [])
-         (fun s acc => Go s (rev acc)).
+         (fun s acc => Go s (rev_append acc [])).
 
   Definition collect_pairs (cs : attr_codes) (kvs : list entry) (s : bstate) : res (list (bytes * bytes)) :=
     bind (each (fun e s acc =>
@@ -253,7 +253,7 @@ Section Loader.
                     end)
                 | _ => Go (add_err (c_pair_key cs) s) acc
                 end))) kvs s [])
-         (fun s acc => Go s (rev acc)).
+         (fun s acc => Go s (rev_append acc [])).
 
   (* the attribute-value code shared (textually) by tools, nodes and commands *)
   Definition configure_attr (cs : attr_codes) (o : owner) (attribute : bytes) (value : ynode) (s : bstate) : res unit :=
@@ -522,4 +522,4 @@ Definition is_crash (r : load_result) : bool := match r with LoadCrash => true |
 Definition is_ok (r : load_result) : bool := match r with LoadOk _ => true | _ => false end.
 Definition doc_count (docs : list ynode) : nat := length docs.
 Definition errors_of (r : load_result) : list N :=
-  match r with LoadOk s | LoadError s => rev (st_errs s) | LoadCrash => [] end.
+  match r with LoadOk s | LoadError s => rev_append (st_errs s) [] | LoadCrash => [] end.
